@@ -6,6 +6,7 @@ package props
 import (
 	"encoding/json"
 	"fmt"
+	"io"
 	"os"
 	"regexp"
 	"sort"
@@ -18,7 +19,12 @@ import (
 
 	"helm.sh/helm/v4/pkg/action"
 	chart "helm.sh/helm/v4/pkg/chart/v2"
-	releaseutil "helm.sh/helm/v4/pkg/release/util"
+	chartutil "helm.sh/helm/v4/pkg/chart/v2/util"
+	"helm.sh/helm/v4/pkg/kube"
+	kubefake "helm.sh/helm/v4/pkg/kube/fake"
+	release "helm.sh/helm/v4/pkg/release/v1"
+	"helm.sh/helm/v4/pkg/storage"
+	"helm.sh/helm/v4/pkg/storage/driver"
 
 	"verif/internal/evid"
 	"verif/internal/vt"
@@ -80,7 +86,8 @@ func c08GenA(t *rapid.T) c08ACase {
 		if rapid.IntRange(0, 3).Draw(t, "leadingSeparator") == 0 {
 			sb.WriteString("---\n")
 		}
-		for d, nd := 0, rapid.IntRange(0, 4).Draw(t, "nDocs"); d < nd; d++ {
+		// "any number of documents": mostly a few, sometimes enough that positions need two digits
+		for d, nd := 0, rapid.SampledFrom([]int{0, 1, 2, 3, 4, 1, 2, 3, 4, 7, 12, 25}).Draw(t, "nDocs"); d < nd; d++ {
 			id++
 			g := c08Doc{ID: id, File: "c/" + fname, Pos: d}
 			switch rapid.IntRange(0, 8).Draw(t, "docClass") {
@@ -274,17 +281,43 @@ func c08JudgeA(tb vt.TB, c c08ACase) {
 		}
 		return bodies
 	}(), c)
-	// uninstall order through SortManifests on the stored manifest
-	_, sorted, err := releaseutil.SortManifests(releaseutil.SplitManifests(rel.Manifest), nil, releaseutil.UninstallOrder)
-	if err != nil {
-		fail("C08:A/uninstall-sort-failed", err.Error())
+	// uninstall order: the real Uninstall action on the stored release, observed as the document stream it hands to
+	// the kube client for deletion
+	rec := &c08RecordingKube{PrintingKubeClient: kubefake.PrintingKubeClient{Out: io.Discard, LogOutput: io.Discard}}
+	ucfg := &action.Configuration{Releases: storage.Init(driver.NewMemory()), KubeClient: rec, Capabilities: chartutil.DefaultCapabilities}
+	stored := *rel
+	info := *rel.Info
+	info.Status = release.StatusDeployed
+	stored.Info = &info
+	if err := ucfg.Releases.Create(&stored); err != nil {
+		fail("C08:A/harness/store-failed", err.Error())
+		return
+	}
+	un := action.NewUninstall(ucfg)
+	un.DisableHooks = true
+	if _, err := un.Run("r"); err != nil {
+		fail("C08:A/uninstall-failed", err.Error())
 		return
 	}
 	var bodies []string
-	for _, m := range sorted {
-		bodies = append(bodies, m.Content)
+	for _, d := range strings.Split(rec.built, "\n---\n") {
+		if strings.TrimSpace(d) != "" {
+			bodies = append(bodies, d)
+		}
 	}
 	c08CheckOrder(fail, "uninstall", c08Rank(c08UninstallOrder), bodies, c)
+}
+
+// c08RecordingKube records the manifest stream the Uninstall action builds its deletion list from.
+type c08RecordingKube struct {
+	kubefake.PrintingKubeClient
+	built string
+}
+
+func (r *c08RecordingKube) Build(rd io.Reader, _ bool) (kube.ResourceList, error) {
+	b, err := io.ReadAll(rd)
+	r.built += string(b)
+	return kube.ResourceList{}, err
 }
 
 func c08CheckOrder(fail func(sig, d string), which string, rank map[string]int, bodies []string, c c08ACase) {
@@ -304,6 +337,19 @@ func c08CheckOrder(fail func(sig, d string), which string, rank map[string]int, 
 		if rk(c08KindOf(named[i])) > rk(c08KindOf(named[i+1])) {
 			fail("C08:A/"+which+"-kind-order-violated", fmt.Sprintf("%s before %s", c08KindOf(named[i]), c08KindOf(named[i+1])))
 			return
+		}
+	}
+	// "all resources of one kind finish before the next kind starts": the creation (deletion) batches are the runs of
+	// consecutive equal kinds, so every kind - also each unknown one - must form exactly one run
+	closed := map[string]bool{}
+	for i, b := range named {
+		k := c08KindOf(b)
+		if closed[k] {
+			fail("C08:A/"+which+"-documents-of-one-kind-not-contiguous", fmt.Sprintf("kind %s resumes at position %d after another kind started", k, i))
+			return
+		}
+		if i+1 < len(named) && c08KindOf(named[i+1]) != k {
+			closed[k] = true
 		}
 	}
 	byKind := map[string][]string{}
@@ -362,11 +408,14 @@ func c08AProp(t *rapid.T) {
 	if odd {
 		lbls = append(lbls, "odd-separators-or-crlf")
 	}
+	if len(c.Docs) > 10 {
+		lbls = append(lbls, "more-than-ten-documents")
+	}
 	evid.Case(lbls, jsonOf(c.Files), len(c.Docs) >= 3 && hasHook && (hasUnknown || odd), c.Files)
 }
 
 func TestC08A(t *testing.T) {
-	evid.Extra("rule", "C08A: 1-4 template files (yaml/yml, nested directories, a partial _p.tpl, NOTES.txt also in a sub directory) each with 0-4 documents of known and unknown kinds, with or without hook annotations (known events, unknown events, mixtures, odd case/spacing), weights and delete policies, blank and comment-only documents, joined by separators with trailing blanks, CRLF, doubled and leading/trailing separators; every real document carries a unique delimiter-terminated id. After a client-only dry-run install: each id appears exactly once in the place an independent classifier says (manifest, hook list, or nowhere for documents naming an unknown event / living in NOTES or a partial), attributed to its file, content equal as parsed YAML and textually modulo surrounding whitespace and leading document markers; nothing else appears; manifest entries follow the documented install kind order with unknown kinds last and original (file path, position) order within a kind; the same for the documented uninstall order via SortManifests. Non-trivial = at least 3 documents including a hook and an unknown kind or an odd separator; distinct by the file set.")
+	evid.Extra("rule", "C08A: 1-4 template files (yaml/yml, nested directories, a partial _p.tpl, NOTES.txt also in a sub directory) each with 0-4 documents of known and unknown kinds, with or without hook annotations (known events, unknown events, mixtures, odd case/spacing), weights and delete policies, blank and comment-only documents, joined by separators with trailing blanks, CRLF, doubled and leading/trailing separators; every real document carries a unique delimiter-terminated id. After a client-only dry-run install: each id appears exactly once in the place an independent classifier says (manifest, hook list, or nowhere for documents naming an unknown event / living in NOTES or a partial), attributed to its file, content equal as parsed YAML and textually modulo surrounding whitespace and leading document markers; nothing else appears; manifest entries follow the documented install kind order with unknown kinds last and original (file path, position) order within a kind; the same for the documented uninstall order, observed as the document stream a real Uninstall action of the stored release hands to the kube client. Non-trivial = at least 3 documents including a hook and an unknown kind or an odd separator; distinct by the file set.")
 	rapid.Check(t, c08AProp)
 }
 
